@@ -1261,7 +1261,8 @@ fn main() {
     let seed = args.seed;
 
     // (a) guard programs
-    let n = args.n(50_000, 2_000_000);
+    // Miri interprets ~1000x slower: a fixed small number there, whatever the scale
+    let n = if cfg!(miri) { args.get_u64("programs", 250) } else { args.n(1_000_000, 10_000_000) };
     par_cases(&mut r, &args, n, |i, r| {
         let mut g = Rng::stream(seed, &[5, 1, i]);
         let p = gen_program(&mut g);
@@ -1277,7 +1278,7 @@ fn main() {
             jobs.push((fi, *e, false));
         }
     }
-    let rounds = if cfg!(miri) { 1 } else { args.n(4, 40) };
+    let rounds = if cfg!(miri) { 1 } else { args.n(10, 100) };
     let total = jobs.len() as u64 * rounds;
     par_cases(&mut r, &args, total, |i, r| {
         let (fi, exit, en) = jobs[(i % jobs.len() as u64) as usize];
